@@ -130,6 +130,16 @@ class _Borrowed:
         return self._b.controls
 
     def ob(self, rule, instance, ok, detail="", where=None):
+        if not ok:
+            # a listed finding of the lending property is that property's business: the borrower takes the clause over
+            # for everything else (a *new* violation of the clause still counts here)
+            if getattr(self, "_lender_known", None) is None:
+                known, _ = load_known()
+                self._lender_known = {re.sub(r"\[(MAX|DEF|MIN|ORD)\]", "", k) for (p_, k) in known if p_ == self.prop}
+            key = re.sub(r"\[(MAX|DEF|MIN|ORD)\]", "", "%s|%s" % (rule, instance))
+            if key in self._lender_known:
+                self._b.count("%sknown findings of %s not taken over" % (self._prefix, self.prop))
+                return None
         return self._b.ob(self._prefix + rule, instance, ok, detail, where)
 
     def count(self, key, n=1):
